@@ -15,25 +15,10 @@ def C17_never_idle : Prop := ∀ (cfg : Cfg) (evs : List Ev), neverIdle (toMStep
 def C17_fatal_surfaces : Prop :=
   ∀ (cfg : Cfg) (evs : List Ev), fatalSurfaces (toMSteps (run cfg evs)) = true ∧ escapeSurfaces (toMSteps (run cfg evs)) = true
 
-/-- The half of it that the code is expected to satisfy: a non-Kafka error on a join / sync /
-    heartbeat reply or from a consumer surfaces on `start`'s Deferred (at once, or when the leave
-    reply arrives).  Proved at table level (`C17_fatal_table`); the trace-level statement needs the
-    ghost "error awaiting the leave reply = `leaveWait`", not yet discharged (the monitor runs on
-    every implementation trace). -/
-def C17_fatal_surfaces_on_replies : Prop :=
-  ∀ (cfg : Cfg) (evs : List Ev), fatalSurfaces (toMSteps (run cfg evs)) = true
-
 /-- Once failures cease the member reaches stable membership within the pending delay plus the
     protocol's reply count (model time).  Not attempted yet. -/
 def C17_rejoins_bounded : Prop :=
   ∀ (cfg : Cfg) (evs : List Ev), (final cfg evs).started = true → (final cfg evs).stopping = false →
     ∃ tail : List Ev, tail.length ≤ 8 ∧ (final cfg (evs ++ tail)).rejoinNeeded = false
-
-/-- After an UnknownMemberId / InvalidGroupId eviction every JoinGroup sent before the next successful
-    join reply quotes the empty member id (so a coordinator that forgot the member lets it back in).
-    Proved at table level (`C17_forgotten_member_resets`: the member id is cleared in that step); the
-    trace-level statement needs the frame "nothing but a join reply sets a non-empty member id". -/
-def C17_fresh_after_eviction : Prop :=
-  ∀ (cfg : Cfg) (evs : List Ev), freshAfterEviction (toMSteps (run cfg evs)) = true
 
 end Afkak.Props.C17.Open
